@@ -226,3 +226,14 @@ package aa
 //@   loop 2 invariant exists(k, 0, len(r), D(r[k])) == old(exists(k, 0, len(r), D(r[k])))
 //@   loop 2 decreases len(r) - j
 //@   ensures exists(k, 0, len(result), D(result[k])) == old(exists(k, 0, len(r), D(r[k])))
+// Profile.Merge: the set of flags is kept, the rules go through Rules.Merge (so the facts
+// they express are kept), nothing else of the profile changes and the method reports
+// "not merged" (profile blocks are never merged with each other).
+//@ func (*Profile).Merge
+//@   opt prop=C10
+//@   rulesmerge
+//@   assigns p.Flags, p.Rules
+//@   ensures !result
+//@   ensures forall_str(x, mem(p.Flags, x) == old(mem(p.Flags, x)))
+//@   ensures exists(k, 0, len(p.Rules), D(p.Rules[k])) == old(exists(k, 0, len(p.Rules), D(p.Rules[k])))
+
